@@ -199,14 +199,17 @@ def run(prog: Program, chk: Check):
         gen = ci.methods.get("generate")
         if gen is None:
             raise AnalysisError(f"anchor vanished: {clsname}.generate")
-        loops = [lp for lp in walk_local(gen.node) if isinstance(lp, ast.For) and norm(lp.iter) == "self.parser.message_defs.values()"]
+        from ..util import iterations
+
         emits = False
-        for lp in loops:
-            for c in calls_in(lp):
+        gcm = guards.copy_map(gen.node)
+        for itn in [i_ for i_ in iterations(gen.node) if norm(guards.subst(i_.iter, gcm)) == "self.parser.message_defs.values()"]:
+            for c in itn.calls():
                 if isinstance(c.func, ast.Attribute) and path_of(c.func.value) == "self":
                     fi = ci.methods.get(c.func.attr)
                     if fi is not None and any(isinstance(x, ast.Attribute) and x.attr == "hash" for x in ast.walk(fi.node)):
-                        if not any(isinstance(a, ast.If) for a in ancestors(c) if any(x is lp for x in ancestors(a))) or modname.endswith("c99"):
+                        filtered = bool(itn.conditions) if itn.is_comp else any(isinstance(a, ast.If) for a in ancestors(c) if any(x is itn.node for x in ancestors(a)))
+                        if not filtered or modname.endswith("c99"):
                             emits = True
         P.decide(emits, f"{modname}::{clsname}.generate|hash-per-message", where(gen), "a hash is emitted for every message definition", f"{clsname}.generate does not emit a hash for every message definition")
 
